@@ -57,8 +57,11 @@ def gen_calendar(rng):
     for z in rng.sample(KNOWN_IDS + UNKNOWN_IDS, rng.choice((0, 0, 1, 2, 3))):
         for _ in range(2 if rng.random() < 0.1 else 1):
             present.append(z)
-            lines += ["BEGIN:VTIMEZONE", "TZID:" + z, "BEGIN:STANDARD", "DTSTART:19700101T000000", "TZOFFSETFROM:+0100",
-                      "TZOFFSETTO:+0100", "END:STANDARD", "END:VTIMEZONE"]
+            # zoned values may also sit on a VTIMEZONE itself and on anything nested below it ("any property of any nested component")
+            inner = [line_for(rng, ids or ["Europe/London"]).replace("FREEBUSY", "X-FB")] if rng.random() < 0.3 else []
+            onvtz = ["LAST-MODIFIED;TZID=%s:20200101T000000" % rng.choice(ids or ["Asia/Tokyo"])] if rng.random() < 0.15 else []
+            lines += ["BEGIN:VTIMEZONE", "TZID:" + z] + onvtz + ["BEGIN:STANDARD", "DTSTART:19700101T000000", "TZOFFSETFROM:+0100",
+                      "TZOFFSETTO:+0100"] + inner + ["END:STANDARD", "END:VTIMEZONE"]
     if rng.random() < 0.04:
         lines += ["BEGIN:VTIMEZONE", "BEGIN:STANDARD", "DTSTART:19700101T000000", "TZOFFSETFROM:+0100", "TZOFFSETTO:+0100",
                   "END:STANDARD", "END:VTIMEZONE"]            # no TZID (finding C18-F1)
@@ -126,7 +129,11 @@ def run(ctx, res):
         reqs, rows = [], []
         for i in range(n):
             text = gen_calendar(rng)
-            cal = icalendar.Calendar.from_ical(text)
+            try:
+                cal = icalendar.Calendar.from_ical(text)
+            except ValueError:
+                res.dist("rejected by the parser (e.g. dateutil refuses a zoned DTSTART inside a custom VTIMEZONE)")
+                continue
             o = T.obs_comp(cal)
             spec = py_all_tzids(cal)
             res.count(text, nontrivial=bool(spec))
